@@ -29,8 +29,6 @@ StartStop == phase = "gf" =>
   /\ [i \in 1..9 |-> Runs([j \in 1..18 |-> (StopPat \div 2 ^ (18 - j)) % 2])[i][2]] = <<7, 1, 1, 3, 1, 1, 1, 2, 1>>
   /\ Cardinality({ModPow(3, j) : j \in 1..928}) = 928
 \* packing rules of the standard (encoder side), inverted by the reader's conversions
-Pack6(bytes) == LET d == FoldLeft(LAMBDA digs, x : MulAdd(digs, 256, x, 900), <<>>, bytes) IN Reverse(d \o Rep(0, 5 - Len(d)))
-PackNum(digits) == Reverse(FoldLeft(LAMBDA digs, x : MulAdd(digs, 10, x, 900), <<>>, <<1>> \o digits))
 Conversions == phase = "conv" =>
   LET bytes == [i \in 1..6 |-> (a * 37 + b * 101 + i * i * 29 + (IF a = 40 THEN 255 ELSE 0)) % 256]
       digits == [i \in 1..(1 + a + (IF b = 5 THEN 3 ELSE 0)) |-> (a + b * i + i * i) % 10]
